@@ -93,7 +93,9 @@ func PeerList.Filter
   loop 1 invariant C18/accepted-so-far: (forall x *Peer :: x != nil && apply(f, x) ==> sel(x)) ==> (forall k int :: 0 <= k && k < len(b.L) ==> sel(b.L[k]))
 define sel(p) = p != nil && p.Name != theA() && p.Name != theB()
 // step 2: excluding a list that names both leaves selected peers only
-define namesBoth(ex) = (exists j int :: 0 <= j && j < len(ex.L) && ex.L[j].Name == theA()) && (exists j int :: 0 <= j && j < len(ex.L) && ex.L[j].Name == theB())
+// (as Agent.route builds its exclusion list: the source first, the agent itself second - stated
+// without quantifiers, which keeps the obligations that use it fast)
+define namesBoth(ex) = len(ex.L) >= 2 && ex.L[0] != nil && ex.L[0].Name == theB() && ex.L[1] != nil && ex.L[1].Name == theA()
 func PeerList.Exclude
   props C18
   requires PeersOK(l) && (ex == nil || PeersOK(ex))
@@ -164,7 +166,8 @@ func Agent.route
   ensures C18/never-to-itself-nor-back-to-the-source: old(a.Self.Name) == theA() && old(src.Name) == theB() ==> (forall i int :: 0 <= i && i < len(result) ==> result[i].Name != theA() && result[i].Name != theB())
   loop 1 modifies nothing
   loop 1 invariant peers != nil && PeersOK(peers) && -1 <= rangeindex && rangeindex < len(peers.L) && fresh(dst) && (forall i int :: 0 <= i && i < len(dst) ==> dst[i] != nil)
-  loop 1 invariant old(a.Self.Name) == theA() && old(src.Name) == theB() ==> allSel(peers) && (forall i int :: 0 <= i && i < len(dst) ==> dst[i].Name != theA() && dst[i].Name != theB())
+  loop 1 invariant old(a.Self.Name) == theA() && old(src.Name) == theB() ==> allSel(peers)
+  loop 1 invariant C18/routed-so-far: old(a.Self.Name) == theA() && old(src.Name) == theB() ==> (forall i int :: 0 <= i && i < len(dst) ==> dst[i].Name != theA() && dst[i].Name != theB())
 
 immutable Agent.gossip, Agent.log, Agent.topology by NewAgent, NewAgentFromConfig, NewDefaultAgent, SetLogger.$1, Agent.Start
 immutable Topology.m by NewTopology
